@@ -360,6 +360,28 @@ def rule_enumeration(repo: Repo) -> List[Ob]:
                                 verdict, msg = True, "sampler draws a position of range(len(probabilities)) weighted by probabilities"
                     if w is not None and verdict is not False and f"{selfn}.{f}" not in defs.roots(w) and "weights" in kw:
                         verdict, msg = False, f"sampler weights `{src(w)}` do not derive from the probabilities"
+                    # the weight list must keep one entry per category: its position IS the sampled value.  A list that is filled in a loop
+                    # over the probabilities must be appended to on every iteration that does not raise.
+                    if verdict is True and isinstance(w, ast.Name):
+                        from ..cfg import cfg_of as _cfg_of
+                        cg = _cfg_of(m.node)
+                        apps = [c2 for c2 in walk_no_nested(m.node) if isinstance(c2, ast.Call) and call_name(c2) in ("append",) and isinstance(c2.func, ast.Attribute)
+                                and isinstance(c2.func.value, ast.Name) and c2.func.value.id == w.id]
+                        for ap in apps:
+                            loop = next((a for a in ancestors(ap) if isinstance(a, ast.For)), None)
+                            if loop is None or f"{selfn}.{f}" not in defs.roots(loop.iter):
+                                continue
+                            head = next((n_ for n_ in cg.nodes if n_.kind == "test" and n_.stmt is loop), None)
+                            an = cg.node_of(ap)
+                            if head is None or an is None:
+                                continue
+                            entries = [b_ for b_, lab in cg.succ[head] if lab is True]
+                            # can the loop head be reached again from the body entry without passing the append?
+                            if any(b_ is not an and cg.reachable(b_, head, avoid={an}) for b_ in entries):
+                                verdict, msg = False, (f"`{src(ap)[:40]}` is skipped on some iterations: the weights lose entries, the positions of the later categories shift "
+                                                       "and the sampler returns other values than the moment side enumerates")
+                    elif verdict is True and isinstance(w, (ast.ListComp, ast.GeneratorExp)) and any(g.ifs for g in w.generators):
+                        verdict, msg = False, f"`{src(w)[:60]}` filters the weights: positions of later categories shift"
             else:
                 for r in ranges:
                     if len(r.args) != 1:
@@ -393,7 +415,8 @@ def rule_enumeration(repo: Repo) -> List[Ob]:
                             return ast.Subscript(value=ast.Name(id=pnm, ctx=ast.Load()), slice=ast.Constant(value=vals[0].index), ctx=ast.Load())
                         return n
                 import copy as _c
-                return T().visit(_c.deepcopy(e))
+                from ..model import clone as _clone
+                return T().visit(_clone(e))
             nz = Normalizer(attr_cb=lambda a: None)
             try:
                 lo, hi = nz(resolve(c.args[0])), nz(resolve(c.args[1]))
